@@ -223,6 +223,10 @@ def run(repo, res):
         raise AnalysisError('Environment.close vanished')
     srv_run = repo.method(SERVER, 'Server', 'run')
     api_model.apply(res, api_model.client_model(repo), {'close': 'C16-R5'}, REMOTE, close.lineno)
+    # launch protocol on a modelled starter thread / launcher: sequential schedules (starter in flight until joined, or
+    # finished at once), with and without a failing background launch; the interleavings proper are R1-R3 above
+    nl = api_model.apply(res, api_model.client_model(repo), {'launch': 'C16-R3'}, REMOTE, 0)
+    res.count('launch_scenarios', nl, floor=6)
     api_model.apply(res, api_model.server_model(repo), {'close': 'C16-R6', 'eof': 'C16-R6'}, SERVER, srv_run.lineno)
     main = None
     for n in repo.tree(SERVER).body:
